@@ -25,6 +25,9 @@ PROP = "C01"
 def run_job(job, w):
     from rt import harness, wfgen, oracles
     harness.setup_process(job["K"])
+    ly = None
+    if job.get("line_yield"):
+        ly = harness.install_line_yield(job["line_yield"], seed=job.get("line_seed", 0))
     for sc in job["scenarios"]:
         wf, script = sc["wf"], sc["script"]
         nodes = wfgen.expand(wf)
@@ -67,6 +70,12 @@ def run_job(job, w):
                       "outcomes": [s["outcome"] for s in r["stages"]], "final_states": r["final_states"],
                       "launch_events": [{k: e[k] for k in ("seq", "kind", "comp", "preds") if k in e}
                                         for e in ev if e["kind"] in ("launch", "cs.run")][:12]})
+
+
+    if ly:
+        w.count("line_events", ly["lines"])
+        w.count("line_yields_injected", ly["yields"])
+        w.count("runs_under_line_yield", len(job["scenarios"]))
 
 
 if "--worker" in sys.argv:
@@ -112,6 +121,12 @@ def main():
         scs = make_scenarios(n_children * per_child, rnd, thorough)
         jobs = [{"K": K if not thorough else [10.0, 20.0, 20.0, 30.0][(rnd + i) % 4],
                  "scenarios": scs[i * per_child:(i + 1) * per_child]} for i in range(n_children)]
+        if thorough:
+            # LINE-level yield injection on ~10% of the children (slow: K=10 and fewer scenarios)
+            for i, j in enumerate(jobs):
+                if (rnd + i) % 10 == 0:
+                    j.update({"K": 10.0, "line_yield": 0.02, "line_seed": rnd * 100 + i,
+                              "scenarios": j["scenarios"][:4], "watchdog_s": 400.0})
         vlib.fanout("checks.C01", jobs, c, timeout=900)
         rnd += 1
         enough = c.evaluations >= floor_runs and c.counters.get("launch_checks", 0) >= floor_checks
